@@ -839,6 +839,23 @@ class CallMixin:
                 raise Unsupported("append to a temporary list")
             self.write_back(ast.Name(id=org[1], ctx=ast.Load()) if org[0] == 'var' else org[1], new, fr)
             return VNone()
+        if isinstance(s, (VSeq, VView)) and s.skind == 'dict' and name in ('items', 'values', 'keys') and not args:
+            d = s
+            if name == 'items':
+                return VView(d.n, lambda i: seq_get(d, i), 'list', elem_ty=type_of(d).elem)
+            k = 0 if name == 'keys' else 1
+            return VView(d.n, lambda i: seq_get(d, i).items[k], 'list', elem_ty=type_of(d).elem.items[k])
+        if name == 'add' and (isinstance(s, VOpaque) and s.tag == 'emptyset' or isinstance(s, VSeq) and s.skind == 'set'):
+            v = args[0]
+            if isinstance(s, VOpaque):
+                s = VSeq(z3.IntVal(0), fresh(type_of(v), self.fresh_name('set'), 1), 'set')
+            # modelling assumption: elements added to a set in the supported functions are pairwise different objects
+            new = seq_append(s, v)
+            org = fn.origin
+            if org is None:
+                raise Unsupported("add to a temporary set")
+            self.write_back(ast.Name(id=org[1], ctx=ast.Load()) if org[0] == 'var' else org[1], new, fr)
+            return VNone()
         if name == 'startswith' and isinstance(s, (VSeq, VView)) and s.skind == 'str' and len(args) == 1 and \
                 isinstance(args[0], VOpaque) and args[0].tag == 'const' and isinstance(args[0].py, str):
             pre = args[0].py
